@@ -23,7 +23,7 @@ ID = 'C13'
 KINDS = ['explorer', 'enum']    # explorer = histories half (props/c13_hist.py), enum = inputs half (this file)
 KIND = 'enum'
 LEVEL = 'model_checking'
-BUDGET = {'quick': 60, 'thorough': 600}
+BUDGET = {'quick': 900, 'thorough': 10800}
 TECHNIQUE = ('bounded-exhaustive input enumeration against a reference model '
              '(small-scope model checking of a sequential component)')
 
